@@ -17,6 +17,8 @@ pub mod c16;
 pub mod c17;
 #[cfg(feature = "full")]
 pub mod c18;
+#[cfg(feature = "full")]
+pub mod c19;
 pub mod c04;
 pub mod c05;
 pub mod c06;
@@ -61,6 +63,7 @@ pub fn registry() -> Vec<Prop> {
         v.push(Prop { id: "C14", run: c14::run, replay: c14::replay, rule: c14::RULE, full: true, child: None });
         v.push(Prop { id: "C16", run: c16::run, replay: c16::replay, rule: c16::RULE, full: true, child: None });
         v.push(Prop { id: "C17", run: c17::run, replay: c17::replay, rule: c17::RULE, full: true, child: Some(c17::child) });
+        v.push(Prop { id: "C19", run: c19::run, replay: c19::replay, rule: c19::RULE, full: true, child: None });
         v.push(Prop { id: "C18", run: c18::run, replay: c18::replay, rule: c18::RULE, full: true, child: Some(c18::child) });
         v.push(Prop { id: "C03", run: c03::run, replay: c03::replay, rule: c03::RULE, full: true, child: None });
     }
